@@ -88,9 +88,12 @@ def step (_ : Unit) (line : String) : Unit × String :=
       let r := hexEncE (String.ofList (loadText (mapping env) txt.toList))
       ((), r ++ " ||| " ++ (if impl == r then "ok" else "bad:dotenv-precedence want=" ++ r))
     | _, _, _ => ((), "bad-op")
-  | ["launchenv", g, a, b, kh] =>
+  | "launchenv" :: g :: a :: b :: kh :: rest =>
     match parsePairs g, parsePairs a, parsePairs b, hexDec kh with
-    | some glob, some ownP, some ownQ, some k =>
+    | some glob0, some ownP, some ownQ, some k =>
+      if rest != [] && rest != ["cmds"] then ((), "bad-op") else
+      -- `env_cmds`: the trimmed output of each command that succeeds is appended to the global variables
+      let glob := if rest == ["cmds"] then glob0 ++ [("VT_CMD", "fromcmd"), ("VT_A", "cmdA")] else glob0
       -- every launch of a process gets the environment of that process: its own variables over the
       -- global ones, with its own name and replica number
       let view (name : String) (own : List (String × String)) : String :=
